@@ -66,6 +66,9 @@ type Report struct {
 	Hypothesis  []string       `json:"hypothesis_failures,omitempty"`
 }
 
+// FirstTok is the first n tokens of a line.
+func FirstTok(s string, n int) string { return firstTok(s, n) }
+
 func firstTok(s string, n int) string {
 	f := strings.Fields(s)
 	if len(f) > n {
